@@ -79,3 +79,35 @@ def panic_set(tier):
 
 def all_sets(tier):
     return {"c09": progress_set(tier), "c05": tryfail_set(tier), "c18": panic_set(tier)}
+
+
+# ---------------------------------------------------------------------------------------------
+# conformance of the tokio shim / gate seam: the same gated programs, free-running on REAL tokio + futures
+# ---------------------------------------------------------------------------------------------
+REAL_HEADER = """use futures::future::ready;
+fn trt() -> tokio::runtime::Runtime { tokio::runtime::Builder::new_current_thread().build().unwrap() }
+fn trt_mt() -> tokio::runtime::Runtime { tokio::runtime::Builder::new_multi_thread().worker_threads(4).build().unwrap() }
+fn gate(g: usize) -> vrt::Pend { vrt::pend(inp(32 + g % 16) as usize) }
+async fn gated(g: usize, site: &'static str, slot: usize, val: i32) -> i32 { gate(g).await; ev(site, &val); st(slot, val) }
+async fn gated_r(g: usize, site: &'static str, slot: usize, payload: i32, val: i32) -> Result<i32, i32> { gate(g).await; ev(site, &val); st_r(slot, payload, val) }
+async fn gated2(g: usize, g2: usize, site: &'static str, slot: usize, val: i32) -> i32 { gate(g).await; gate(g2).await; ev(site, &val); st(slot, val) }
+"""
+
+
+def real_tokio_programs(tier):
+    """every program of the E3-A progress set, on real tokio (current-thread and 4-worker runtimes) and futures' own executor,
+    with pending points that return Pending 0..3 times (rows vary the counts per gate)"""
+    from .e2 import Prog
+
+    progs = []
+    rows = [[0] * 48, [0] * 32 + [1] * 16, [0] * 32 + [(i % 4) for i in range(16)], [0] * 32 + [(3 - i % 4) for i in range(16)], [0] * 32 + [(i * 7) % 3 for i in range(16)]]
+    for a in progress_set(tier):
+        mac = a.meta["macro"]
+        d, r = a.meta["dsl"], a.meta["ref"]
+        is_try = mac.startswith("try")
+        rb = "futures::executor::block_on(%s)" % r if is_try else "let x = futures::executor::block_on(%s);\nformat!(\"{:?}\", x)" % r
+        runners = [("ct", "trt().block_on(%s)"), ("mt", "trt_mt().block_on(%s)")] if "spawn" in mac else [("fx", "futures::executor::block_on(%s)"), ("ct", "trt().block_on(%s)")]
+        for rn, tmpl in runners:
+            mb = "let x = %s;\nformat!(\"{:?}\", x)" % (tmpl % d)
+            progs.append(Prog("real/%s/%s" % (rn, a.id), rb, mb, rows, "TryAsync" if is_try else "ProjSteps", meta={"macro": mac, "dsl": d, "ref": r}))
+    return progs
